@@ -171,6 +171,12 @@ def jsonable(c):
     return json.loads(json.dumps(c, default=lambda f: str(f)))
 
 
+def pregen(ctx):
+    """tie (T): re-translate nodes/readouts/ridge.py + base.py of the tree under test into coq/gen/Gen_ridge.v"""
+    from vlib import gen
+    return gen.pregen_units(["ridge"])
+
+
 def correspondence(ctx):
     rng = ctx.rng("corr")
     cases = gen_cases(rng, ctx.n(120, 1500))
